@@ -82,7 +82,9 @@ def run_cli(argv, stdin_bytes=None):
 
 
 # injected expressions: also ones that are nothing but a numeric literal
-CODES = ("1+1", "12345", "1.5", "1e3", "'x'", "None", "0x10", "-7", "inf if False else 3")
+CODES = ("1+1", "12345", "1.5", "1e3", "'x'", "None", "0x10", "-7", "inf if False else 3",
+         # 152 characters, 302 bytes of UTF-8
+         "'" + "\u00e9" * 150 + "'")
 
 
 def code_for(parts):
@@ -110,9 +112,13 @@ def check_inject(parts, target, run_last, replace, via_stdin, scratch, subproces
     try:
         split_stack(data)  # only to learn whether fickling can parse these inputs at all
         code = code_for(parts)
-        want = lib_inject(parts[target], run_last, replace, code) if target < len(parts) else None
-    except Exception:  # noqa: BLE001 - fickling cannot model these inputs: outside the domain
+    except Exception:  # noqa: BLE001 - fickling cannot parse these inputs: outside the domain
         return None
+    refused = False
+    try:
+        want = lib_inject(parts[target], run_last, replace, code) if target < len(parts) else None
+    except Exception:  # noqa: BLE001 - the library refuses this injection: so must the CLI, cleanly
+        want, refused = None, True
     argv = ["--inject", code, "--inject-target", str(target)]
     if run_last:
         argv.append("--run-last")
@@ -143,6 +149,12 @@ def check_inject(parts, target, run_last, replace, via_stdin, scratch, subproces
         if out:
             return fail(f"out-of-range target wrote {len(out)} bytes to stdout")
         return None
+    if refused:
+        # an injection the library cannot perform: the CLI may fail, but then it emits nothing
+        # (never some of the pickles and a fragment of the target)
+        if rc != 0 and out:
+            return fail(f"the injection is refused (exit status {rc}) after {len(out)} bytes had already been written to stdout")
+        return None
     if rc != 0:
         return fail(f"exit status {rc}")
     try:
@@ -169,8 +181,14 @@ def check_inject(parts, target, run_last, replace, via_stdin, scratch, subproces
         return None
     try:
         new = pickle.loads(got[target])
+        # ... also when it is read from a stream, and by the pure-Python unpickler (which holds
+        # FRAME lengths to their word)
+        from_stream = pickle.load(io.BytesIO(got[target]))
+        by_python = pickle._loads(got[target]) if b"verif_fn" not in got[target] else new
     except Exception as e:  # noqa: BLE001
         return fail(f"the emitted target pickle no longer loads: {type(e).__name__}: {e}")
+    if not (_same(new, from_stream) and _same(new, by_python)):
+        return fail(f"the emitted target loads to {new!r} from bytes, {from_stream!r} from a stream, {by_python!r} in pure Python")
     if replace:
         if not values.deep_equal(new, eval(code)):
             return fail(f"--replace-result: the emitted target loads to {new!r}, not to the value of the injected {code!r}")
@@ -277,7 +295,8 @@ def _parts():
     small = st.tuples(v, st.sampled_from(range(6))).map(lambda t: _dumps(*t))
     big = st.tuples(values.multi_frame_values(), st.sampled_from([4, 5])).map(lambda t: _dumps(*t))
     # hand-assembled targets whose memo is written sparsely or twice at the same index
-    odd_memo = st.sampled_from([b"]q\x00Nq\x000.", b"(lp1\nI1\nap1\n.", b"\x80\x02]q\x00(K\x01K\x02eq\x00.",
+    odd_memo = st.sampled_from([b"\x80\x04\x95\x00\x00\x00\x00\x00\x00\x00\x00\x95\x05\x00\x00\x00\x00\x00\x00\x00]K\x01a.",  # two adjacent FRAMEs
+                                b"]q\x00Nq\x000.", b"(lp1\nI1\nap1\n.", b"\x80\x02]q\x00(K\x01K\x02eq\x00.",
                                 b"\x80\x02}q\x05(K\x01]q\x05K\x02h\x05u.", b"\x80\x04\x8c\x01a\x94\x8c\x01b\x94q\x000h\x01\x86."])  # fmt: skip
     # values left on the stack below the result at STOP (legal; only hand-built)
     leftovers = st.sampled_from([b"K\x01K\x02.", b"(K\x01K\x02.", b"NN].", b"\x80\x02K\x05]q\x00."])
